@@ -156,8 +156,8 @@ inductive Draw
   /-- exception, with the state of the iterator after it -/
   | err (e : SelErr) (rest : List Nat)
 
-/-- `_get_next_random`; note the test `i > len(utxos)` (sic): `i == len(utxos)` passes it and `utxos[i]` raises
-`IndexError` -/
+/-- `_get_next_random`: an injected index outside `0 .. len(utxos) - 1` is a selection error (`i >= len(utxos)`; the
+`utxos[i]? = none` branch below is unreachable and kept only so that the function is total without a proof) -/
 def nextRandom (utxos : List UTxO) (stream : List Nat) : Draw :=
   match utxos with
   | [] => .err .depleted stream
@@ -165,7 +165,7 @@ def nextRandom (utxos : List UTxO) (stream : List Nat) : Draw :=
     match stream with
     | [] => .err .selection []
     | i :: rest =>
-      if i > utxos.length then .err .selection rest
+      if i ≥ utxos.length then .err .selection rest
       else match utxos[i]? with
         | none => .err .crash rest
         | some u => .ok i u rest
